@@ -196,8 +196,8 @@ func fnHRandField(ctx *cmdContext, args map[string]any) (output respValue, err e
 
 	if options != nil {
 		count, hasCount := options.mustGet("count").(int64)
-		if hasCount && count == math.MinInt64 {
-			// cannot be negated
+		if hasCount && (count < -math.MaxInt64/2 || count > math.MaxInt64/2) {
+			// cannot be negated, or asks for more repeated elements than a reply can hold
 			output.data = respErrorString("ERR value is out of range")
 			return
 		}
